@@ -752,10 +752,11 @@ def applyTx (env : Env) (l : Led) (tx : Tx) (invalid : Option String) : Led × T
   let r := applyBxh env l0 tx invalid
   let rc := mkRcpt r.2.1
   match payGasFee env.cfg r.1 tx.sender r.2.2 with
-  | some l2 => (l2.finalise, { rcpt := rc, events := l2.events })
+  | some l2 => (l2.finalise, { rcpt := rc, events := if rc.ok then l2.events else [] })
   | none =>
     let l2 := payLeftAsGasFee env.cfg (r.1.revert l0.snapshot) tx.sender
-    (l2.finalise, { rcpt := { rc with ok := false, ret := "fee" }, events := l2.events })
+    -- since the `fix:` commit "do not process the events of a failed transaction" a FAILED receipt carries no events
+    (l2.finalise, { rcpt := { rc with ok := false, ret := "fee" }, events := [] })
 
 -- ------------------------------------------------------------------------------------ block
 
